@@ -2,6 +2,9 @@
 the scratch directory, one forked child per case, under a watchdog (wall-clock limit, address-space limit).
 argv: in.json out.json
 
+A case with "seq": [step, ...] (each step = the fields w, v, stl, files, max_depth, debug of a case) performs the steps one
+after the other in ONE child and returns {"result": "seq", "steps": [observation per step, + "recursion_limit_after"]}.
+
 in.json : {"dir": "<scratch sub-directory>", "timeout": 30.0, "mem_mb": 4096,
            "cases": [{"id": str, "w": 8|16|32|64, "v": 0..3, "stl": bool, "warm": bool,
                       "files": [[name, hex-of-bytes], ...], "max_depth": int|null,
@@ -13,6 +16,7 @@ out.json: one observation per case (nothing is judged here):
    "cause": class of __cause__ ("struct.error" style for non-builtins) or null,
    "frame": innermost frame inside the repo of the ORIGINAL exception (function name), "frame_file": file (repo relative),
    "stage": "parse" | "parser-fold" | "macro-resolve" | "label-resolve" | "write" | "api" (outermost pipeline function on the stack),
+   "expr_frames" / "macro_frames": how many frames of the original traceback are Expr methods / macro expansions,
    "has_pos": message carries an input file name and a line number, "idents": source identifiers found in the message,
    "debug": bool, "dbg_exists": bool, "dbg_load": "loads" | "<exception class>" | null (only after a successful assembly),
    "out_exists": bool, "out_size": int, "reader": "accepts" | "<exception class>" | null, "secs": float}
@@ -84,7 +88,10 @@ def describe(e, sources, names):
             'cause': exc_name(e.__cause__) if e.__cause__ is not None else None,
             'frame': inner.name if inner else None,
             'frame_file': os.path.relpath(inner.filename, REPO_ROOT) if inner else None,
-            'frame_line': inner.lineno if inner else None, 'stage': stage, 'has_pos': has_pos, 'idents': idents}
+            'frame_line': inner.lineno if inner else None, 'stage': stage, 'has_pos': has_pos, 'idents': idents,
+            # what the stack was made of (tells a deep expression tree from deep macro nesting when the stack overflows)
+            'expr_frames': sum(1 for f in repo_frames if f.filename.endswith(os.sep + 'expr.py')),
+            'macro_frames': sum(1 for f in repo_frames if f.name in ('resolve_macro_aux', 'resolve_rep_call'))}
 
 
 def child(case, cdir, wfd):
@@ -150,7 +157,126 @@ def child(case, cdir, wfd):
     os.close(wfd)
 
 
+def assemble_step(step, sdir, hard):
+    """one assembly of a sequence, observed completely (same fields as a single case) inside the running process"""
+    sdir.mkdir(parents=True, exist_ok=True)
+    paths, names, sources = [], [], ''
+    for name, hx in step['files']:
+        p = sdir / name
+        data = bytes.fromhex(hx)
+        p.write_bytes(data)
+        paths.append(p)
+        names.append(name)
+        sources += data.decode('latin1') + '\n'
+    out = sdir / 'out.fjm'
+    dbg = sdir / 'out.fjd'
+    kw = {}
+    if step.get('max_depth') is not None:
+        kw['max_recursion_depth'] = step['max_depth']
+    if step.get('debug'):
+        kw['debugging_file_path'] = dbg
+    t0 = time.time()
+    try:
+        with open(os.devnull, 'w') as dn, contextlib.redirect_stdout(dn):
+            flipjump.assemble(paths, out, memory_width=step['w'], use_stl=step['stl'],
+                              fjm_version=FJMVersion(step['v']), print_time=False, **kw)
+        obs = {'result': 'ok'}
+    except BaseException as e:  # noqa
+        limit_now = sys.getrecursionlimit()
+        sys.setrecursionlimit(max(limit_now, 5000))
+        obs = describe(e, sources, names)
+        sys.setrecursionlimit(limit_now)        # the process state the next step sees is the one the library left
+        del e
+    obs['secs'] = round(time.time() - t0, 3)
+    obs['recursion_limit_after'] = sys.getrecursionlimit()
+    obs['out_exists'] = out.exists()
+    obs['out_size'] = out.stat().st_size if out.exists() else 0
+    obs['debug'] = bool(step.get('debug'))
+    obs['dbg_exists'] = dbg.exists()
+    limit_now = sys.getrecursionlimit()
+    sys.setrecursionlimit(max(limit_now, 5000))
+    obs['reader'] = None
+    if out.exists():
+        try:
+            with open(os.devnull, 'w') as dn, contextlib.redirect_stdout(dn):
+                Reader(out)
+            obs['reader'] = 'accepts'
+        except BaseException as e:  # noqa
+            obs['reader'] = exc_name(e)
+    obs['dbg_load'] = None
+    if step.get('debug') and obs['result'] == 'ok':
+        try:
+            labels = load_debugging_labels(dbg)
+            obs['dbg_load'] = 'loads' if isinstance(labels, dict) else f'not a dict: {type(labels).__name__}'
+        except BaseException as e:  # noqa
+            obs['dbg_load'] = exc_name(e)
+    sys.setrecursionlimit(limit_now)
+    for f in list(sdir.iterdir()):
+        f.unlink()
+    sdir.rmdir()
+    return obs
+
+
+def child_seq(case, cdir, wfd):
+    """several assemblies in a row in ONE process (what a test-suite, a server or a notebook does): one line per step"""
+    mem = int(case.get('mem_mb', 4096)) << 20
+    hard = resource.getrlimit(resource.RLIMIT_AS)[1]
+    resource.setrlimit(resource.RLIMIT_AS, (mem, hard))
+    resource.setrlimit(resource.RLIMIT_CORE, (0, 0))
+    fj_parser._stl_prefix_cache.clear()
+    for i, step in enumerate(case['seq']):
+        obs = assemble_step(step, cdir / f'step{i}', hard)
+        os.write(wfd, (json.dumps(obs) + '\n').encode())
+    os.close(wfd)
+
+
+def run_seq(case, base, default_timeout):
+    cdir = base / re.sub(r'[^A-Za-z0-9_.-]', '_', str(case['id']))
+    cdir.mkdir(parents=True, exist_ok=True)
+    rfd, wfd = os.pipe()
+    sys.stdout.flush()
+    pid = os.fork()
+    if pid == 0:
+        rc = 0
+        try:
+            os.close(rfd)
+            child_seq(case, cdir, wfd)
+        except BaseException:  # noqa
+            traceback.print_exc()
+            rc = 3
+        finally:
+            os._exit(rc)
+    os.close(wfd)
+    limit = float(case.get('timeout') or default_timeout) * len(case['seq'])
+    t0 = time.time()
+    buf = b''
+    hang = False
+    while True:
+        left = limit - (time.time() - t0)
+        r = select.select([rfd], [], [], left)[0] if left > 0 else []
+        if not r:
+            hang = True
+            break
+        chunk = os.read(rfd, 1 << 16)
+        if not chunk:
+            break
+        buf += chunk
+    os.close(rfd)
+    if hang:
+        os.kill(pid, signal.SIGKILL)
+    _, status = os.waitpid(pid, 0)
+    steps = [json.loads(ln.decode()) for ln in buf.split(b'\n') if ln.strip()]
+    while len(steps) < len(case['seq']):
+        steps.append({'result': 'hang' if hang else 'crash', 'status': status, 'out_exists': False, 'out_size': 0,
+                      'reader': None, 'secs': round(time.time() - t0, 2)})
+    import shutil
+    shutil.rmtree(cdir, ignore_errors=True)
+    return {'result': 'seq', 'steps': steps}
+
+
 def run_case(case, base, default_timeout):
+    if case.get('seq'):
+        return run_seq(case, base, default_timeout)
     cdir = base / re.sub(r'[^A-Za-z0-9_.-]', '_', str(case['id']))
     cdir.mkdir(parents=True, exist_ok=True)
     rfd, wfd = os.pipe()
